@@ -464,4 +464,34 @@ def compPickle (s : CSt) : CSt :=
                     woAnnot := s.c.constraints.foldl (fun acc c => listInsert acc c.id) [] },
     w := { s.w with fes := fes } }
 
+/-! ### one public call on a CompositeFrontend (a single composite; `branch` of the composite is `compBranch`) -/
+
+def outOfC (f : α → Out) : Except Err α × CSt → Out × CSt
+  | (.ok a, s) => (f a, s)
+  | (.error e, s) => (.err e, s)
+
+def compStep (E : Env) (s : CSt) : Op → Out × CSt
+  | .add cs => if cs.isEmpty then (.cons [], s) else outOfC (fun added => .cons (added.map (·.id))) (compAdd E cs s)
+  | .satisfiable extra => outOfC .bool (compSatisfiable E extra s)
+  | .eval e n extra => outOfC .vals (compEval E e n extra s)
+  | .batchEval es n extra => outOfC .tuples (compBatchEval E es n extra s)
+  | .min e extra signed => outOfC .int (compMin E e extra signed s)
+  | .max e extra signed => outOfC .int (compMax E e extra signed s)
+  | .solution e v extra => outOfC .bool (compSolution E e v extra s)
+  | .isTrue c extra => outOfC .bool (compIsTrue E c extra s)
+  | .isFalse c extra => outOfC .bool (compIsFalse E c extra s)
+  | .simplify => outOfC (fun cs => .cons (cs.map (·.id))) (compSimplify E s)
+  | .downsize => outOfC (fun _ => .unit) (compDownsize E s)
+  | .pickle => (.unit, compPickle s)
+  | .unsatCore _ => (.err .notImpl, s)
+  | .branch => (.err .notImpl, s)
+
+/-- a history of calls on one CompositeFrontend; each answer is paired with the constraints the user had added when it was given -/
+def runComp (E : Env) : CSt → List Con → List Op → List (List Con × Op × Out)
+  | _, _, [] => []
+  | s, U, op :: rest =>
+    let r := compStep E s op
+    let U' := match op with | .add cs => U ++ cs | _ => U
+    (U', op, r.1) :: runComp E r.2 U' rest
+
 end Claripy.Solver
